@@ -13,12 +13,14 @@ structure ImplSym where
   tag : String
   name : Option String
   qn : Option String
+  det : Option String
+  sig : String
   r : Range
   fr : Range
 deriving DecidableEq
 
 def implSym (j : Json) : R ImplSym := do
-  pure { tag := ← str (← fld j "tag"), name := ← optStr (← fld j "name"), qn := ← optStr (← fld j "qn"),
+  pure { tag := ← str (← fld j "tag"), name := ← optStr (← fld j "name"), qn := ← optStr (← fld j "qn"), det := ← optStr (← fld j "det"), sig := ← str (← fld j "sig"),
          r := ← range (← fld j "r"), fr := ← range (← fld j "fr") }
 
 def optIdx (j : Json) : R (Option Nat) :=
@@ -110,6 +112,7 @@ structure Result where
   spec16 : Bool := true
   assume16 : Bool := true
   corr17 : Bool := true
+  corrText : Bool := true   -- `get_details` / `get_signature` (model coverage beyond C17; never part of a verdict)
   nsyms : Nat := 0
   npos : Nat := 0
 
@@ -172,8 +175,9 @@ def checkFile (b : AidlFile) (w : FileWalk) : Result := Id.run do
           | none => false)
       r := { r with corr16 := r.corr16 && (model == res), spec16 := r.spec16 && (spec == res) && inside }
   -- C17: names (model of symbol.rs vs implementation)
-  r := { r with corr17 := r.corr17 &&
-    (modelAll.map (fun s => (s.tag, s.name, s.qualifiedName)) == w.symbols.map (fun s => (s.tag, s.name, s.qn))) }
+  let namesOk := modelAll.map (fun s => (s.tag, s.name, s.qualifiedName)) == w.symbols.map (fun s => (s.tag, s.name, s.qn))
+  let textOk := modelAll.map (fun s => (s.details, s.signature)) == w.symbols.map (fun s => (s.det, s.sig))
+  r := { r with corr17 := r.corr17 && namesOk, corrText := r.corrText && textOk }
   return r
 
 end Aidl.Driver.Walk
